@@ -46,6 +46,7 @@ CHECKS = {
         "runs": [
             {"pkg": "internal/state", "test": "TestVerif_C05"},
             {"pkg": "internal/spynode", "test": "TestVerif_C05Node"},
+            {"pkg": "internal/spynode", "test": "TestVerif_C05Delay"},
         ],
     },
     "C14": {
@@ -177,6 +178,15 @@ CHECKS = {
         "level_note": "Trusted: harness clock over-approximates the age (only 'too early' is judged), iteration counting through hook node.safe.iteration (absence => inconclusive, never a timer verdict), tx and block processing share the harness goroutine (they race with the checker, not with each other).",
         "runs": [
             {"pkg": "internal/spynode", "test": "TestVerif_C07"},
+        ],
+    },
+    "C12": {
+        "level": "exploration",
+        "technique": "runtime monitoring: non-interference expressed as trusted-side invariants (convergence oracle, proof provenance, safe/vouching, unverified-peer isolation) monitored while simulated hostile untrusted connections act between the scheduling steps of the deterministic node simulation",
+        "level_text": "The well-behaved-trusted-peer scenarios of C01 run with 1-3 simulated untrusted connections that act between scheduling steps with generated hostile traffic: valid and invalid chain proofs, inv/tx before and after verification, block messages for outstanding trusted requests (genuine, and same header with a different body), foreign blocks, addr floods. Monitors: the C01 convergence and in-sync oracles must still hold, every proof is for a block of the trusted tree, a transaction from untrusted peers is never safe, an unverified peer is never asked for a transaction and nothing it sent reaches a handler. Exploration: adversary message sequences and interleavings are unbounded.",
+        "level_note": "Trusted: untrusted connections are driven at the message-handler level with the same shared objects the real UntrustedNode uses (state, mempool, tx channel, block repository); their goroutines and sockets are exercised by the L1/C19 engine only.",
+        "runs": [
+            {"pkg": "internal/spynode", "test": "TestVerif_C12"},
         ],
     },
 }
